@@ -225,6 +225,7 @@ def run(chk: Check):
     from . import c06, c09
     from .. import constfold
     c09.rule_k1(chk, constfold.fold_tokenize(), False)
+    c09.rule_k6(chk, constfold.fold_tokenize(), ix, False)
     c06.rule_p3(chk, ix, ir)
     chk.floor("M1-must-append", 6)
     chk.floor("M2-delimiter-tables", 4)
